@@ -114,6 +114,8 @@ def c01_steps(tier, seed):
         miri("registry-miri", "m_registry", ["--shape", seed], 16 if q else 512, timeout=400 if q else 3600),
         native("gate-held-reader", ["w_live", "--mode", "gate", "--trials", 300 if q else 5000, "--seed", seed + 17]),
         native("reg-owner-istep", ["w_reg", "--mode", "owner", "--phase", "istep", "--killers", 0, "--rounds", 6 if q else 120, "--ops", 80, "--seed", seed + 23], timeout=300 if q else 2400),
+        # single owners with slow actions (a delivery stays in the handler for tens of milliseconds across removals)
+        native("reg-owner-slow-actions", ["w_reg", "--mode", "owner", "--phase", "none", "--rounds", 15 if q else 200, "--seed", seed + 24], timeout=300 if q else 2400),
         native("owner-drop-scripts-and-concurrent-add", ["w_instance", "--scripts", 100 if q else 2000, "--concurrent", 40 if q else 600, "--seed", seed + 29], timeout=600 if q else 2400),
     ]
     if not q:
